@@ -311,7 +311,8 @@ def check(ctx):
         desc, wts = arr("descriptors", "D", "F", inp=False), arr("weights", "D", inp=False)
         grids, gws = arr("grids", "G", "F", inp=False), arr("gweights", "G", inp=False)
         binv, nk = arr("binv", "G", "F", "F", inp=False), arr("normk", "G", inp=False)
-        members = V("dict", T("sym", "members"))
+        # the members of a grid cell: a vector of descriptor indices (one per cell, of unrelated lengths)
+        members = V("dict", T("sym", "members"), extra=("values", arr("member_idx", Dim.unknown("cellsize"), inp=False, dtype="int")))
         cellv = arr("cell", "F", inp=False) if cell_on else vconst(None)
         o = ctx.bare_object(I, st, cls, {"descriptors": desc, "weights": wts, "_grids": grids, "_sample_weights": gws, "_grid_neighbour": members, "_bandwidth_inv_": binv, "_normkernels_": nk, "fitted_": True, "cell": cellv, "verbose": False})
         Q = arr("Q", "Qn", "F")
